@@ -35,6 +35,10 @@ def _param(draw, names):
     if r < 3:
         return draw(st.one_of(st.floats(-3, 3, allow_nan=False), st.integers(-2, 2)))
     if r < 6:
+        if draw(st.integers(0, 7)) == 0:
+            # two symbols may print the same and still be different symbols (same name, one declared real)
+            nm = draw(st.sampled_from(names))
+            return draw(st.sampled_from([["symr", nm], ["+", ["sym", nm], ["symr", nm]], ["*", ["symr", nm], ["sym", nm]]]))
         return ["sym", draw(st.sampled_from(names))]
     return draw(cgen.expr_specs(depth=2, names=names))
 
@@ -170,7 +174,7 @@ def o_bind(spec):
     cb = must(lambda: c.bind(m), "Circuit.bind")
     require(cb.n_qubits == c.n_qubits, lambda: f"bind changed the width {c.n_qubits} -> {cb.n_qubits}")
     require(len(cb.operations) == len(c.operations), "bind changed the number of operations")
-    all_syms = set(sympy.Symbol(s) for s in POOL + FRESH + ["zz", "unused_1"])
+    all_syms = set(sympy.Symbol(s) for s in POOL + FRESH + ["zz", "unused_1"]) | set(sympy.Symbol(s, real=True) for s in POOL)
     rest = cgen.assignment_for(all_syms, spec["vseed"])
     val_syms = {}
     for k, v in m.items():
@@ -209,7 +213,7 @@ def o_bind(spec):
             if not isinstance(p, sympy.Basic):
                 require(type(q) is type(p) and q == p, lambda: f"op {i}: numeric parameter {p!r} became {q!r}")
             elif not (_psyms(p) & keys):
-                require(q == p, lambda: f"op {i}: parameter {p} without mapped symbols became {q}")
+                require(q == p or _params_close(p, q, spec["vseed"]), lambda: f"op {i}: parameter {p} without mapped symbols became {q}")
         if isinstance(op, GateOperation):
             require(ob.gate.num_qubits == op.gate.num_qubits, lambda: f"op {i}: bind changed the gate arity {op.gate.num_qubits} -> {ob.gate.num_qubits}")
             A = _num(must(lambda: ob.gate.matrix, "bound gate matrix"), rest)
@@ -292,6 +296,8 @@ def o_bind(spec):
         cl.add("multiphase")
     if any("reset" in o for o in spec["ops"]):
         cl.add("reset_operation")
+    if any('"symr"' in __import__("json").dumps(o.get("p", o.get("mp", []))) for o in spec["ops"]):
+        cl.add("same_name_other_assumptions")
     if any(("g" in o) and o["g"] == "customsym" for o in spec["ops"]):
         cl.add("custom")
         if any(("g" in o) and o["g"] == "customsym" and set(cgen.expr_symbols(["x"] + o["p"])) & set(o["f"]) for o in spec["ops"]):
